@@ -12,6 +12,7 @@ import (
 	"regexp"
 	"strconv"
 	"strings"
+	"sync"
 	"time"
 )
 
@@ -29,6 +30,7 @@ type Result struct {
 	TimedOut   bool
 	WallS      float64
 	Printed    []string // lines produced by PrintT / Print (raw)
+	Coverage   map[string][2]int64 // "Module.Action" -> distinct, generated (only with VERIF_COVERAGE=1)
 }
 
 // Opts configures a run.
@@ -50,6 +52,10 @@ type Opts struct {
 }
 
 var (
+	reCovAct = regexp.MustCompile(`^<(\w+) line \d+, col \d+ to line \d+, col \d+ of module (\w+)>: (\d+):(\d+)`)
+	covMu    sync.Mutex
+	covTotal = map[string][2]int64{}
+	covRuns  = map[string]int{}
 	reStates = regexp.MustCompile(`(\d+) states generated, (\d+) distinct states found`)
 	reDepth  = regexp.MustCompile(`The depth of the complete state graph search is (\d+)`)
 )
@@ -127,6 +133,10 @@ func Run(o Opts) (*Result, error) {
 		args = append(args, "-seed", strconv.FormatInt(o.Seed, 10))
 	}
 	args = append(args, o.Extra...)
+	coverage := os.Getenv("VERIF_COVERAGE") == "1" && o.Simulate == ""
+	if coverage {
+		args = append(args, "-coverage", "1")
+	}
 	args = append(args, o.Module)
 	ctx, cancel := context.WithTimeout(context.Background(), o.Timeout)
 	defer cancel()
@@ -154,6 +164,16 @@ func Run(o Opts) (*Result, error) {
 	if m := reDepth.FindStringSubmatch(res.Output); m != nil {
 		res.Depth, _ = strconv.Atoi(m[1])
 	}
+	if coverage {
+		res.Coverage = parseCoverage(res.Output)
+		covMu.Lock()
+		covRuns[o.Module+"/"+cfg]++
+		for k, v := range res.Coverage {
+			t := covTotal[k]
+			covTotal[k] = [2]int64{t[0] + v[0], t[1] + v[1]}
+		}
+		covMu.Unlock()
+	}
 	res.OK = strings.Contains(res.Output, "Model checking completed. No error has been found.")
 	for _, line := range strings.Split(res.Output, "\n") {
 		if strings.HasPrefix(line, "Error:") && res.Violation == "" {
@@ -169,4 +189,39 @@ func (r *Result) Tail(n int) string {
 		return r.Output[len(r.Output)-n:]
 	}
 	return r.Output
+}
+
+// parseCoverage extracts the per-action counts of the last coverage block.
+func parseCoverage(out string) map[string][2]int64 {
+	i := strings.LastIndex(out, "The coverage statistics at")
+	if i < 0 {
+		return nil
+	}
+	m := map[string][2]int64{}
+	for _, line := range strings.Split(out[i:], "\n") {
+		if g := reCovAct.FindStringSubmatch(line); g != nil {
+			d, _ := strconv.ParseInt(g[3], 10, 64)
+			n, _ := strconv.ParseInt(g[4], 10, 64)
+			k := g[2] + "." + g[1]
+			t := m[k]
+			m[k] = [2]int64{t[0] + d, t[1] + n}
+		}
+	}
+	return m
+}
+
+// CoverageTotals returns the per-action counts summed over every TLC run of this process
+// (VERIF_COVERAGE=1) and the number of runs per module/config.
+func CoverageTotals() (map[string][2]int64, map[string]int) {
+	covMu.Lock()
+	defer covMu.Unlock()
+	a := map[string][2]int64{}
+	for k, v := range covTotal {
+		a[k] = v
+	}
+	b := map[string]int{}
+	for k, v := range covRuns {
+		b[k] = v
+	}
+	return a, b
 }
